@@ -353,17 +353,14 @@ func (jw *JSONWriter) encodeJsonChildren(sn schema.Node, n datanode.DataNode) {
 			}
 
 		case schema.LeafList:
+			// (a leaf-list node without entries is an empty array)
 			vals := cn.YangDataValues()
-			if len(vals) == 0 {
-				jw.WriteString("null")
-			} else {
-				jw.WriteByte('[')
-				for i, v := range vals {
-					if i != 0 {
-						jw.WriteByte(',')
-					}
-					jw.writeValue(csn, v)
+			jw.WriteByte('[')
+			for i, v := range vals {
+				if i != 0 {
+					jw.WriteByte(',')
 				}
+				jw.writeValue(csn, v)
 			}
 			jw.WriteByte(']')
 		}
